@@ -22,6 +22,12 @@ no table of characters are checked on the characters host string methods treat
 specially (Unicode spaces, invisible marks, special-casing letters, characters
 beyond U+FFFF).
 
+Round 5: placeholders that name variables of the CALLER of sprintf (global ones and locals of an enclosing
+function; among them the names sprintf's own body used to have: cut, rest, fmt, i), expression placeholders
+that begin like an argument number ({1+1}, {7} beyond the arguments), the second parameter of s (a start on
+both sides of the string, StrOps.tla: SAt), negative numbers under every padding format (PadNum: the zeroes
+stand between sign and digits), and replace / split / join on strings with hundreds of occurrences.
+
 Strings reach the interpreter as values bound in the session environment (not
 as source literals), so the check does not depend on how the lexer reads
 escapes.  The regular-expression engine is not modelled: split is called only
@@ -50,7 +56,8 @@ ALPHA = list(",|.+('\"\\\t\n{}aAé") + list(" \rÉ*[])^$?<>&#b-") + list("017")
 # characters outside the basic plane.  Only laws that need no table are checked on them.
 WIDE_WS = [0x0B, 0x0C, 0x1C, 0x1D, 0x1E, 0x1F, 0x85, 0xA0, 0x1680, 0x2000, 0x2003, 0x200A, 0x2028, 0x2029,
            0x202F, 0x205F, 0x3000]
-WIDE_MARK = [0x200B, 0xFEFF, 0x200E, 0xAD, 0x180E, 0x2060, 0x200D, 0x00, 0x7F, 0x301, 0x307]
+WIDE_MARK = [0x200B, 0xFEFF, 0x200E, 0xAD, 0x180E, 0x2060, 0x200D, 0x00, 0x7F, 0x301, 0x307,
+             0x01, 0x07, 0x08, 0x1B]          # round 5: more control characters
 WIDE_CASE = [0xDF, 0x149, 0x1C5, 0x130, 0x131, 0x3A3, 0x3C3, 0x3C2, 0x17F, 0x212A, 0x390, 0xFB01, 0x1F0,
              0x587, 0x1E9E, 0x10400, 0x10428, 0x1F600, 0x4E2D, 0x69, 0x49, 0x53, 0x73]
 WIDE = [chr(c) for c in WIDE_WS + WIDE_MARK + WIDE_CASE]
@@ -443,17 +450,38 @@ def num_value(rng):
     return {"i": n}, {"k": "b", "txt": [], "n": -1 if n < 0 else 1, "ds": [int(c) for c in str(abs(n))]}
 
 
+# names a caller of sprintf may have given to its variables; the first ones are the names of the locals that
+# the body of sprintf had when it was written in the language (none is a function the check calls)
+CALLER = ["cut", "rest", "fmt", "i", "args", "cut", "rest", "fmt", "i", "x", "name", "v1", "v10", "F0"]
+
+
+def expr_placeholder(rng, nargs):
+    """an expression that begins like an argument number: n beyond the arguments, or n op m"""
+    a = rng.choice([0, 1, 2, 10, 11, nargs, rng.randint(0, 9999)])
+    if rng.random() < 0.3:
+        return str(max(a, nargs))
+    b = rng.choice([0, 1, 2, 10, rng.randint(0, 9999)])
+    return str(a) + rng.choice("+-*") + str(b)
+
+
 def gen_interp(rng):
-    """s(F) with the variables v<i>, or sprintf(F, a0, a1, ...) with 1..3 or 11..13 arguments; the
-    placeholders are a selection of the values, with repeats; the model scans the template itself."""
+    """s(F) with the variables v<i>, or sprintf(F, a0, a1, ...) with 1..3 or 11..13 arguments and, in
+    half of the cases, variables of the caller; the placeholders are a selection of the values, with
+    repeats, and some expressions; the model scans the template itself.  The variables are global ones or
+    (local) parameters of a function around the call."""
     via = rng.choice(["s", "sprintf"])
     nargs = rng.randint(1, 3) if rng.random() < 0.6 else rng.randint(11, 13)
     if via == "s":
         nums = sorted(rng.sample(range(13), min(nargs, 4)))   # v1 and v10: one name is a prefix of another
         names = [f"v{i}" for i in nums]
+        nargs = 0
     else:
         names = [str(i) for i in range(nargs)]
+        if rng.random() < 0.5:
+            names += sorted(set(rng.sample(CALLER, rng.randint(1, 3))))
+    local = rng.random() < 0.4
     env, vars_ = [], {}
+    outer = {}                 # variable of the caller -> the global that holds its value (local = TRUE)
     for i, name in enumerate(names):
         if rng.random() < 0.55:
             v = wstr(rng, 0, 6)
@@ -462,26 +490,45 @@ def gen_interp(rng):
             val, mv = num_value(rng)
         mv["name"] = cps(name)
         env.append(mv)
-        vars_[name if via == "s" else f"a{i}"] = val
+        if via == "sprintf" and i < nargs:
+            vars_[f"a{i}"] = val
+        elif local:
+            outer[name] = f"g{i}"
+            vars_[f"g{i}"] = val
+        else:
+            vars_[name] = val
     tpl = []
-    favourites = [i for i in (0, 1, 10, 11, 12) if i < len(names)]
+    favourites = [i for i in (0, 1, 10, 11, 12) if i < len(names)] + list(range(nargs, len(names))) * 2
     for _ in range(rng.randint(1, 4)):
         tpl += literal(rng, names)
+        if rng.random() < 0.12:
+            mode = rng.choice(["r", "l", "z"])
+            tpl += cps("{" + expr_placeholder(rng, nargs) + fmt_text(rng.choice([0, 0, 3, 6, 12]), mode,
+                                                                 rng.random() < 0.3) + "}")
+            continue
         i = rng.choice(favourites) if rng.random() < 0.5 else rng.randrange(len(names))
         mv = env[i]
         hex_ = mv["k"] != "s" and rng.random() < 0.4
         mode = rng.choice(["r", "l", "r", "l", "z"])
-        if mode == "z" and mv["k"] != "s" and mv["n"] < 0:
-            mode = "r"               # '0' padding of a negative number is not defined
+        if mv["k"] != "s" and mv["n"] < 0 and rng.random() < 0.3:
+            mode = "z"               # the zeroes stand between the sign and the digits
         w = rng.choice([0, 0, rng.randint(1, 9), rng.randint(10, 45) if mv["k"] == "b" else 12])
         tpl += cps("{" + names[i] + fmt_text(w, mode, hex_) + "}")
     tpl += literal(rng, names, last=True)
     vars_["F"] = {"s": tpl}
+    start = 0
     if via == "s":
-        src = "s(F)"
+        if rng.random() < 0.3:           # on both sides of the string, and inside it
+            start = rng.randint(-len(tpl) - 6, len(tpl) + 3)
+            if rng.random() < 0.3:
+                start = rng.choice([-len(tpl) - 1, -len(tpl), -len(tpl) - 2, len(tpl), -1])
+        src = "s(F)" if start == 0 and rng.random() < 0.8 else f"s(F, {start})" if rng.random() < 0.5 else \
+            f"s(F, start = {start})"
     else:
-        src = "sprintf(F" + "".join(f", a{i}" for i in range(len(names))) + ")"
-    return ({"op": "interp", "via": via, "env": env, "tpl": tpl}, src, vars_, "str")
+        src = "sprintf(F" + "".join(f", a{i}" for i in range(nargs)) + ")"
+    if outer:
+        src = "(fn(" + ", ".join(outer) + ") " + src + ")(" + ", ".join(outer.values()) + ")"
+    return ({"op": "interp", "via": via, "env": env, "tpl": tpl, "start": start, "nargs": nargs}, src, vars_, "str")
 
 
 def is_tie(fp, d):
@@ -520,7 +567,7 @@ def gen_round(rng):
         if not is_tie(fp, d):
             break
     neg = rng.random() < 0.5
-    mode = rng.choice(["r", "l"] if neg else MODES)
+    mode = rng.choice(MODES)
     via = rng.choice(["s", "sprintf"])
     names = ["v"] if via == "s" else ["0"]
     return round_event(neg, ip, fp, d, rng.randint(0, 12), mode, via,
@@ -543,7 +590,7 @@ def num_events(recs, rng):
                 via = rng.choice(["s", "sprintf"])
                 name = "v" if via == "s" else "0"
                 out.append(round_event(neg, ip, fp, d, rng.randint(0, 9),
-                                       rng.choice(["r", "l"] if neg else MODES), via,
+                                       rng.choice(MODES), via,
                                        cps("<"), cps(">{" + name + "#." + str(d)), as_int))
         else:
             n = int("".join(map(str, ip)))
@@ -551,14 +598,47 @@ def num_events(recs, rng):
                 continue
             via = rng.choice(["s", "sprintf"])
             name = "n" if via == "s" else "0"
-            tpl = "<{N#x}|{N#12x}|{N#-12x}|{N}|" + ("" if neg else "{N#012x}|{N#07}") + "{N#x"
+            tpl = "<{N#x}|{N#12x}|{N#-12x}|{N}|{N#012x}|{N#07}|{N#04}|{N#02x}{N#x"
             tpl = cps(tpl.replace("N", name))
             mv = ({"k": "i", "txt": [], "n": -n if neg else n, "ds": []} if n <= 99999 else
                   {"k": "b", "txt": [], "n": -1 if neg else 1, "ds": ip})
             mv["name"] = cps(name)
             vars_ = {"n" if via == "s" else "a0": {"i": -n if neg else n}, "F": {"s": tpl}}
-            out.append(({"op": "interp", "via": via, "env": [mv], "tpl": tpl},
+            out.append(({"op": "interp", "via": via, "env": [mv], "tpl": tpl, "start": 0,
+                         "nargs": 1 if via == "sprintf" else 0},
                         "s(F)" if via == "s" else "sprintf(F, a0)", vars_, "str"))
+    return out
+
+
+def many_calls(rng, n=18):
+    """replace / split / join on strings with some hundred occurrences of the search text (the quantifier
+    names strings of length 0..12, the statement says: on all strings; a function that handles each
+    occurrence by a call of its own runs out of depth here): -> list of (event, src, vars, kind)."""
+    out = []
+    for k in range(n):
+        op = ("replace", "split", "replace", "split_join", "join", "join_split")[k % 6]
+        alpha = rng.sample(ALPHA, 3)
+        t = rstr(rng, 1, 2, alpha[:2])
+        fill = rstr(rng, 0, 1, alpha[2:])
+        cnt = rng.randint(420, 520)
+        if op in ("join", "join_split"):
+            if not fill or fill == t[:1]:
+                fill = []
+            parts = [fill] * cnt
+            vars_ = {"P": {"l": parts}, "T": {"s": t}}
+            src = "join(P, T)" if op == "join" else "split(join(P, T), escape_pattern(T))"
+            out.append(({"op": op if op == "join" else "join_split_many", "parts": parts, "t": t}, src, vars_,
+                        "str" if op == "join" else "list"))
+            continue
+        s = rstr(rng, 0, 2, alpha) + (t + fill) * cnt
+        if op == "replace":
+            r = [[], t + t, rstr(rng, 1, 2), t[::-1]][k // 6 % 4]
+            out.append(({"op": "replace_many", "s": s, "t": t, "r": r}, "replace(S, T, R)",
+                        {"S": {"s": s}, "T": {"s": t}, "R": {"s": r}}, "str"))
+        else:
+            src = "split(S, escape_pattern(T))" if op == "split" else "join(split(S, escape_pattern(T)), T)"
+            out.append(({"op": "split_many" if op == "split" else op, "s": s, "t": t}, src,
+                        {"S": {"s": s}, "T": {"s": t}}, "list" if op == "split" else "str"))
     return out
 
 
@@ -659,7 +739,7 @@ def describe(ev):
     if ev["op"] == "interp":
         extra = [txt(v["name"]) + "=" + _mval(v) for v in ev["env"]]
     return ev["op"] + "(" + ", ".join(
-        [f"{k}={show(_evtxt(v))}" for k, v in sorted(ev.items()) if k not in skip] + extra) + ")"
+        [f"{k}={show(_short(_evtxt(v)))}" for k, v in sorted(ev.items()) if k not in skip] + extra) + ")"
 
 
 def _evtxt(v):
@@ -670,8 +750,17 @@ def _evtxt(v):
     return v
 
 
+def _short(x):
+    """long strings and lists in a key: the beginning and the size"""
+    if isinstance(x, str) and len(x) > 80:
+        return x[:24] + f"...({len(x)} characters)"
+    if isinstance(x, list) and len(x) > 40:
+        return x[:3] + [f"...({len(x)} items)"]
+    return x
+
+
 def observed(ev):
-    return {k: _evtxt(v) for k, v in ev.items() if k in OBS}
+    return {k: _short(_evtxt(v)) for k, v in ev.items() if k in OBS}
 
 
 def report_bad(run, events, meta, bad):
@@ -760,6 +849,13 @@ def run(run):
             chunks.append(out)
             val_futs.append(tlc_trace.submit(
                 tlc_validate, out[0], f"Str_Trace validation of the StrNum cases (chunk {j})"))
+        # strings with hundreds of occurrences: a trace of its own
+        many = many_calls(random.Random(run.seed * 7919 + 5))
+        nmany = len(many)
+        for out in pool.imap(_w_calls, [many]):
+            chunks.append(out)
+            val_futs.append(tlc_trace.submit(
+                tlc_validate, out[0], "Str_Trace validation of replace / split / join with many occurrences"))
         # binding A: replay the case records of each model run
         ncase = nkeys = neval_a = 0
         seen = set()
@@ -818,7 +914,7 @@ def run(run):
     for e in events:
         ops[e["op"]] = ops.get(e["op"], 0) + 1
     distinct = len({json.dumps(e, sort_keys=True) for e in events})
-    run.cov["traces_validated_against_impl"] = ncase + nev + nnum
+    run.cov["traces_validated_against_impl"] = ncase + nev + nnum + nmany
     run.cov["evaluations"] = neval_a + nb
     run.cov["distinct_nontrivial"] = nkeys + distinct
     run.cov["rule"] = ("binding A: distinct (law, expression, arguments) triples replayed from the case records "
@@ -826,22 +922,27 @@ def run(run):
                        "evaluations counts interpreter calls")
     run.cov["exhaustive"] = True
     run.cov["bounds"] = {"cfgs": [c for c, _ in cfgs] + [numcfg], "random_events": nev,
-                         "number_cases": nnum, "events_per_op": ops}
+                         "number_cases": nnum, "many_occurrences_cases": nmany, "events_per_op": ops}
     run.assumptions += [
         "strings are bound in the session environment as values, not written as source literals",
         "split is compared only with separators made by escape_pattern (regular expressions are not modelled)",
         "replace with an empty search text and ord('') only have to return or fail at language level",
         "rounding formats are compared as numbers (any numeral of the rounded number is accepted, also with "
         "an exponent), ties are not generated; decimals have at most 15 significant digits (they are floats), "
-        "ints under a rounding or hex format have up to 40 digits; '0' padding of negative numbers is not generated",
+        "ints under a rounding or hex format have up to 40 digits",
+        "a number under a '0' format has the zeroes between its sign and its digits (the padded text is a numeral "
+        "of the same number); text under a '0' format has them in front",
         "base 16 of a negative integer is the sign followed by the digits of the magnitude",
         "lines/words/unlines/unwords/q/esc are not named by the property: disagreements are drift",
         "the VALUE of trim / upper / lower is compared on printable ASCII, ASCII white space and e-acute only; on "
         "other characters (Unicode spaces, invisible marks, special-casing letters, characters beyond U+FFFF) "
         "the laws that need no table are checked: idempotence, trim only takes from the two ends, takes nothing "
         "printable and leaves no ASCII white space there; all other functions are checked on those characters too",
-        "sprintf is called with 1..3 and 11..13 arguments; a group {..} whose content is not a name with an "
-        "optional format is not generated",
+        "sprintf is called with 1..3 and 11..13 arguments; a placeholder that is no argument number is an expression "
+        "of the caller (its global variables, or the parameters of a function around the call); expressions are "
+        "names, numerals and n op m (op one of + - *); other groups {..} are not generated",
+        "s(str, start): a negative start counts from the end, a start outside the string is its nearest end",
+        "strings with hundreds of occurrences (replace / split / join): 18 cases per run, 420..520 occurrences",
     ]
 
 
